@@ -64,7 +64,7 @@ def _build(ctx, st, P, bad=None):
                 f1.qualifiers["citation"] = ["[1]", "[7]"] if bad[1] == 2 else ["[1]", "see ref. 1"]
         else:
             f1.qualifiers.pop("citation")
-        recs.append(st.record.CircularRecord(st.Seq("ACGTTGCAAGCT"), id="el%d" % i, name="n%d" % i, description="d",
+        recs.append(st.record.CircularRecord(st.Seq("ACGTTGCAAGCT"), id=("Exported" if P.get("ids") == "same" else "el%d" % i), name="n%d" % i, description="d",
                                              dbxrefs=["x:%d" % i], features=[f1, f2], annotations=ann))
     if P.get("alias") == "shared-list":
         # two features of one record share their citation list object (as a feature copied with qualifiers.copy() does)
@@ -149,6 +149,13 @@ def obligations(tier, seed):
     for alias in ("twice", "shared-list"):
         obs.append(Ob("purity with an aliased input (%s) m=1" % alias, ob_pure, dict(m=1, refs=True, sympos=0, alias=alias),
                       samples=10, cost=4000))
+    # record identifiers are labels: inputs that share one are still separate inputs
+    obs.append(Ob("purity m=1 citations-everywhere=True, all records share one id", ob_pure,
+                  dict(m=1, refs=True, sympos=0, ids="same"), samples=10, cost=40, group="ids",
+                  expect_witness=("product", "fault-hit")))
+    for fault in tier_pick(tier, (0,), (0, 1, 3)):
+        obs.append(Ob("purity m=2 citations-everywhere=True, all records share one id fault-at=%d" % fault, ob_pure,
+                      dict(m=2, refs=True, sympos=0, ids="same", fault=fault), samples=6, cost=800, group="ids"))
     for m in range(1, tier_pick(tier, 2, 3) + 1):
         for refs in (True, False):
             for sympos in range(m + 1):
